@@ -1,5 +1,5 @@
 /-
-  Helper lemmas for C01 (`lower_sound'`), part 3b: the binary operator steps on extended scalar
+  Helper lemmas for C01 (`lower_sound_ext`), part 3b: the binary operator steps on extended scalar
   forms (the dispatch of Lemmas/LowerStep2.lean with the derivative budget; only the Poisson
   bracket differentiates its arguments).
 -/
